@@ -9,20 +9,31 @@ index labels by several construction routes (assignment, set_index, concat, iloc
 cell must be is computed from the abstract cell alone (`expected_cell`, datetime for the calendar).
 
 Abstract cell (JSON-able), None = missing:
-  numerical            float | 'inf' | '-inf'
+  numerical            float | 'inf' | '-inf'   (any double; the encoded value is the float32 the library's dtype holds)
   categorical          str | int
   multicategorical     [token, ...]            (stripped tokens, repeats allowed)
   sequence_numerical   [float | 'nan', ...]
-  timestamp            int (epoch seconds)  |  {'bad': text}
+  timestamp            int (epoch second of the WALL CLOCK the cell is written in)  |  {'bad': text}
+                       a sub-second part (r['frac']) and a UTC offset (r['tz'] / r['tzname'], one per column, fixed
+                       offsets only) are render options: they do not change the seven components
   embedding            [float, ...]            (fixed width per column; at least one non-missing cell)
   text_embedded / image_embedded   str
 Canonical encoded value: int -> int, float -> [ieee754 bits], NaN -> None (same coding as Drivers/C01.lean).
+
+Hardening families (design_notes/HARDENING.md) live here so that C01 / C02 / C04 share them: `gen_scaled_frame`
+(one dimension from the size ladder of harness/stress.py), special value / name pools, dtype and container
+renderings (CategoricalDtype, `string`, nullable and narrow numeric dtypes, tz-aware and sub-second timestamps,
+object columns of datetime objects, tuple / set / ndarray cells), columns and datasets of one process that share
+raw texts under different separators / time formats (`gen_shared_*`, frame['prelude']), configuration shapes
+(frame['cfg']), second materialize() calls and twin comparison of the input frame (frame['again'] / ['twin']).
+What the families touched but is NOT generated is probed live and logged by `probe_outside_domain`.
 """
 from __future__ import annotations
 
 import datetime
 import math
 import os
+import struct
 import warnings
 
 os.environ.setdefault('TQDM_DISABLE', '1')
@@ -31,7 +42,7 @@ import numpy as np
 import pandas as pd
 import torch
 
-from harness import core
+from harness import core, stress
 
 warnings.filterwarnings('ignore')
 
@@ -40,25 +51,55 @@ STYPES = ['numerical', 'categorical', 'text_embedded', 'text_tokenized', 'multic
 EMB_KINDS = ('embedding', 'text_embedded', 'image_embedded')
 EPOCH = datetime.datetime(1970, 1, 1)
 
-NAME_POOL = ['a', 'B', 'b1', 'b10', 'b2', '_x', 'é', 'Z', 'aa', 'A', 'z9', 'col 1', 'k', 'Kq', 'm_2', 'ß', '0n', 'x.y']
+# names: mixed case ('w'/'W', 'Zeta'/'alpha'), one a prefix of another ('label'/'label_prev'), sentinel look-alikes
+NAME_POOL = ['a', 'B', 'b1', 'b10', 'b2', '_x', 'é', 'Z', 'aa', 'A', 'z9', 'col 1', 'k', 'Kq', 'm_2', 'ß', '0n', 'x.y',
+             'w', 'W', 'Zeta', 'alpha', 'label', 'label_prev', 'sports', 'sportswear', '-1', 'nan', 'None', '0', 'x ',
+             'É', 'target', 'Target']
 NUM_POOL = [0.0, 0.5, -2.25, 3.0, 100.0, 1e10, 16777216.0, -0.125, 7.0, 1.0, 2.0, -1.0, 65504.0]
-CAT_STR = ['a', 'b', 'c', 'd', 'é', '', ' x', 'A', 'NA', '日本', 'b ', '-1', 'nan', 'None', '0']
-TOKENS = ['x', 'y', 'z', 'w', 'é', 'a b', 'Q', 'x1', 'yy', '-1', 'nan', 'None', '0']
+# float32-exact edge payloads + payloads that the float32 cast of the mappers has to round / overflow
+NUM_SPECIAL = [x for x in stress.SPECIAL_F32 + stress.SPECIAL_F64] + [float(2 ** 31 + 1), float(2 ** 53), -16777217.0]
+INT_SPECIAL = [-1, 0, 2 ** 24 + 1, 2 ** 31, -2 ** 31 - 1, 2 ** 53, 2 ** 53 + 1, 2 ** 62]
+CAT_STR = ['a', 'b', 'c', 'd', 'é', '', ' x', 'A', 'NA', '日本', 'b ', '-1', 'nan', 'None', '0',
+           '<NA>', 'a\x00', '\x00', ' ', 'sports', 'sportswear', 'É', '-1.0', 'NaN', 'null', 'x', 'a|b', 'a,b']
+TOKENS = ['x', 'y', 'z', 'w', 'é', 'a b', 'Q', 'x1', 'yy', '-1', 'nan', 'None', '0',
+          'sports', 'sportswear', 'X', 'É', 'a\x00', '<NA>', '-1.0']
+# tokens that contain OTHER columns' separators (legal under a separator they do not contain)
+TOKENS_WITH_SEP = ['x/y', 'y,z', 'p|q', 'u;v', 'a:b', 'x,y', 'z/w']
 SEPS = ['|', ',', ';', '::', '/']
-TEXTS = ['hello', 'wörld', '', 'a b c', 'Hello', 'olleh', '12', 'the quick brown fox', ' pad ', 'None']
+ATOMS = ['x', 'y', 'z', 'w', 'é', 'yy']
+TEXTS = ['hello', 'wörld', '', 'a b c', 'Hello', 'olleh', '12', 'the quick brown fox', ' pad ', 'None', 'nan', '<NA>',
+         'a\x00', '-1']
 BAD_TIMES = ['garbage', '2020-13-45 00:00:00', 'n/a', '31/31/2000', 'yesterday']
 TIME_FORMATS = [
-    # (format handed to the library, strftime format used for rendering, resolution in seconds)
-    ('%Y-%m-%d %H:%M:%S', '%Y-%m-%d %H:%M:%S', 1),
-    ('%d/%m/%Y %H:%M:%S', '%d/%m/%Y %H:%M:%S', 1),
-    ('%Y%m%d %H%M%S', '%Y%m%d %H%M%S', 1),
-    ('%m-%d-%Y %H.%M.%S', '%m-%d-%Y %H.%M.%S', 1),
-    ('%Y-%m-%dT%H:%M:%S', '%Y-%m-%dT%H:%M:%S', 1),
-    ('%Y/%m/%d %H:%M', '%Y/%m/%d %H:%M', 60),
-    ('%Y-%m-%d', '%Y-%m-%d', 86400),
-    ('%d.%m.%Y', '%d.%m.%Y', 86400),
-    (None, '%Y-%m-%d %H:%M:%S', 1),
+    # (format handed to the library, strftime format used for rendering, resolution in seconds, sub-second, offset)
+    ('%Y-%m-%d %H:%M:%S', '%Y-%m-%d %H:%M:%S', 1, False, False),
+    ('%d/%m/%Y %H:%M:%S', '%d/%m/%Y %H:%M:%S', 1, False, False),
+    ('%m/%d/%Y %H:%M:%S', '%m/%d/%Y %H:%M:%S', 1, False, False),
+    ('%Y%m%d %H%M%S', '%Y%m%d %H%M%S', 1, False, False),
+    ('%m-%d-%Y %H.%M.%S', '%m-%d-%Y %H.%M.%S', 1, False, False),
+    ('%Y-%m-%dT%H:%M:%S', '%Y-%m-%dT%H:%M:%S', 1, False, False),
+    ('%Y/%m/%d %H:%M', '%Y/%m/%d %H:%M', 60, False, False),
+    ('%Y-%m-%d', '%Y-%m-%d', 86400, False, False),
+    ('%d.%m.%Y', '%d.%m.%Y', 86400, False, False),
+    (None, '%Y-%m-%d %H:%M:%S', 1, False, False),
+    # sub-second text (%f) and UTC offsets (%z): the encoded components are those of the wall clock as written,
+    # the second is the floor of the instant
+    ('%Y-%m-%d %H:%M:%S.%f', '%Y-%m-%d %H:%M:%S.%f', 1, True, False),
+    ('%d.%m.%Y %H:%M:%S,%f', '%d.%m.%Y %H:%M:%S,%f', 1, True, False),
+    ('%Y-%m-%d %H:%M:%S %z', '%Y-%m-%d %H:%M:%S %z', 1, False, True),
+    ('%Y-%m-%dT%H:%M:%S.%f%z', '%Y-%m-%dT%H:%M:%S.%f%z', 1, True, True),
+    (None, '%Y-%m-%d %H:%M:%S.%f', 1, True, False),
+    (None, '%Y-%m-%dT%H:%M:%S%z', 1, False, True),
 ]
+TZ_MINUTES = [-720, -480, -210, 0, 60, 330, 345, 840]
+TZ_NAMES = ['UTC', 'Etc/GMT+8', 'Etc/GMT-14', 'Etc/GMT+12', '+05:30', '-03:30', '+00:00']
+FRACS_US = [0, 1, 499999, 500000, 500001, 700000, 999999]
+UNIT_PER_S = {'s': 1, 'ms': 10 ** 3, 'us': 10 ** 6, 'ns': 10 ** 9}
+
+# above this many cells a frame is read through the vectorised canonicaliser, and above MODEL_CELLS it is judged
+# by the plain-Python oracle only (the list-based Lean model is quadratic in rows / columns / categories)
+FAST_CELLS = 1500
+MODEL_ROWS, MODEL_COLS, MODEL_CATS, MODEL_ITEMS = 17000, 4200, 4200, 400000
 
 
 def quiet():
@@ -73,9 +114,18 @@ def quiet():
 # ------------------------------------------------------------------------------------------ values
 def fval(x):
     """abstract float -> python float"""
-    if isinstance(x, str):
-        return float(x)
     return float(x)
+
+
+def f32(x):
+    """the float32 the library's default dtype holds for x (C cast: round-half-even, overflow -> inf); no numpy"""
+    x = float(x)
+    if math.isnan(x) or math.isinf(x):
+        return x
+    try:
+        return struct.unpack('<f', struct.pack('<f', x))[0]
+    except OverflowError:
+        return math.copysign(math.inf, x)
 
 
 def cval(x):
@@ -128,6 +178,22 @@ def components_of(sec):
     return [t.year, t.month - 1, t.day - 1, t.weekday(), t.hour, t.minute, t.second]
 
 
+def frac_us(r, sec):
+    """the sub-second part (microseconds) a timestamp cell is rendered with: a function of the cell and the
+    column's salt, so that a row keeps its fraction in every selection of the frame"""
+    salt = r.get('frac')
+    if salt is None:
+        return 0
+    return FRACS_US[(sec * 31 + salt) % len(FRACS_US)]
+
+
+def size_label(dim, v):
+    for t in (16385, 4097, 513, 257, 17):
+        if v >= t:
+            return f'scale:{dim}:{t}+'
+    return None
+
+
 # ------------------------------------------------------------------------------------------ generation
 def _missing_rate(rng):
     return rng.choice([0.0, 0.0, 0.15, 0.3, 0.6])
@@ -140,45 +206,96 @@ def gen_time(rng):
         mo, d = rng.choice([(1, 1), (12, 31), (2, 28), (3, 1), (2, 29), (6, 30), (7, 31)])
         if (mo, d) == (2, 29) and not (y % 4 == 0 and (y % 100 != 0 or y % 400 == 0)):
             d = 28
-        h, mi, s = rng.choice([(0, 0, 0), (23, 59, 59), (12, 0, 0), (0, 0, 1)])
+        h, mi, s = rng.choice([(0, 0, 0), (23, 59, 59), (12, 0, 0), (0, 0, 1), (23, 59, 59)])
         return epoch_of(y, mo, d, h, mi, s)
     y = rng.randint(1700, 2200)
     mo = rng.randint(1, 12)
     d = rng.randint(1, 28)
-    return epoch_of(y, mo, d, rng.randint(0, 23), rng.randint(0, 59), rng.randint(0, 59))
+    return epoch_of(y, mo, d, rng.randint(0, 23), rng.randint(0, 59), rng.choice([rng.randint(0, 59), 59]))
 
 
-def gen_col(rng, name, st, n, target_kind=None):
-    """one abstract column + its render options"""
+def synth_values(rng, k, long=None):
+    """k distinct strings: sentinel look-alikes first, then synthetic names with mixed case and prefix relations
+    ('c1' / 'c10' / 'C1'); `long`: additionally values of that length sharing all but their last characters"""
+    out, seen = [], set()
+
+    def add(v):
+        if v not in seen and len(out) < k:
+            seen.add(v)
+            out.append(v)
+    if long:
+        base = ''.join(rng.choice('abcxyzé') for _ in range(8))
+        body = (base * (long // 8 + 1))[:max(1, long - 1)]
+        for v in (body + 'a', body + 'b', body, body + 'a' + 'z'):
+            add(v)
+    pool = list(CAT_STR)
+    rng.shuffle(pool)
+    for v in pool[:max(2, min(k // 3, len(pool)))]:
+        add(v)
+    prefixes = ['c', 'C', 'cat_', 'é', 'sports', 'Sports', '']
+    i = 0
+    while len(out) < k:
+        add(f'{prefixes[i % len(prefixes)]}{i // len(prefixes)}')
+        i += 1
+    return out
+
+
+def synth_tokens(rng, k, sep, long=None):
+    bad = set(sep or '')
+    return [v for v in synth_values(rng, k + 8, long) if v == v.strip() and v != '' and not (set(v) & bad)][:k] or ['x']
+
+
+def gen_col(rng, name, st, n, target_kind=None, opt=None):
+    """one abstract column + its render options.  `opt` scales one dimension: k (categories / token pool),
+    m (tokens per cell / sequence length), w (embedding width), long (cell text length)"""
+    opt = opt or {}
     pm = _missing_rate(rng)
     if target_kind is not None:
         pm = rng.choice([0.0, 0.0, 0.0, 0.2])
     miss = lambda: rng.random() < pm   # noqa: E731
     col = {'name': name, 'stype': st}
     if st == 'numerical':
-        ints_only = rng.random() < 0.4
-        def cell():
-            if miss():
-                return None
-            if ints_only:
-                return float(rng.randint(-5, 9))
-            r = rng.random()
-            if r < 0.08:
-                return rng.choice(['inf', '-inf'])
-            return rng.choice(NUM_POOL) if r < 0.6 else rng.randint(-40, 40) / 8.0
-        cells = [cell() for _ in range(n)]
+        mode = rng.choice(['ints', 'ints', 'pool', 'pool', 'pool', 'special'])
+        if mode == 'ints':
+            nonneg = rng.random() < 0.3
+            mk = lambda: float(rng.randint(0 if nonneg else -5, 9))   # noqa: E731
+        elif mode == 'pool':
+            def mk():
+                r = rng.random()
+                if r < 0.08:
+                    return rng.choice(['inf', '-inf'])
+                return rng.choice(NUM_POOL) if r < 0.6 else rng.randint(-40, 40) / 8.0
+        else:
+            bigint = rng.random() < 0.3
+            def mk():
+                if bigint:
+                    return float(rng.choice(INT_SPECIAL + [3, -7]))
+                x = rng.choice(NUM_SPECIAL)
+                return 'inf' if x == math.inf else '-inf' if x == -math.inf else x
+        cells = [None if miss() else mk() for _ in range(n)]
         if all(c is None for c in cells) and rng.random() < 0.8:
             cells[rng.randrange(n)] = 1.0
-        dt = 'float64'
-        if ints_only:
-            dt = rng.choice(['float64', 'Int64', 'float32', 'int64'])
-            if dt == 'int64' and any(c is None for c in cells):
-                dt = 'Int64'
+        has_na = any(c is None for c in cells)
+        if mode == 'ints':
+            dts = ['float64', 'Int64', 'float32', 'int64', 'Float64', 'Float32', 'Int32', 'Int16', 'Int8', 'int32', 'int16',
+                   'float16']
+            if nonneg:
+                dts += ['UInt8', 'uint8', 'uint16']
+            dt = rng.choice(dts)
+            if has_na and dt in ('int64', 'int32', 'int16', 'uint8', 'uint16'):
+                dt = {'int64': 'Int64', 'int32': 'Int32', 'int16': 'Int16', 'uint8': 'UInt8', 'uint16': 'UInt16'}[dt]
+        elif mode == 'pool':
+            dt = rng.choice(['float64', 'float64', 'float32', 'Float64'])
+            if dt == 'Float64' and any(c in ('inf', '-inf') for c in cells):
+                dt = 'float64'
+        elif bigint:
+            dt = 'Int64' if has_na else rng.choice(['int64', 'Int64'])
         else:
             dt = rng.choice(['float64', 'float64', 'float32'])
         col['r'] = {'dtype': dt}
+        col['mode'] = mode
     elif st == 'categorical':
-        as_int = rng.random() < 0.25
+        as_int = rng.random() < 0.25 and not opt.get('long')
         if target_kind == 'single':
             k = 1
         elif target_kind == 'binary':
@@ -187,14 +304,20 @@ def gen_col(rng, name, st, n, target_kind=None):
             k = rng.randint(3, 5)
         else:
             k = rng.randint(1, 6)
-        pool = rng.sample(range(0, 12), k) if as_int else rng.sample(CAT_STR, k)
+        k = opt.get('k', k)
+        if opt.get('k') or opt.get('long'):
+            pool = rng.sample(range(-3, 4 * k), k) if as_int else synth_values(rng, k, opt.get('long'))
+        elif as_int:
+            pool = rng.sample(range(0, 12), k) if rng.random() < 0.8 else rng.sample(INT_SPECIAL + [5, 6], k)
+        else:
+            pool = rng.sample(CAT_STR, k)
         skew = rng.random() < 0.5
         def cell():
             if miss():
                 return None
             return pool[min(int(rng.random() ** 2 * k), k - 1)] if skew else rng.choice(pool)
         cells = [cell() for _ in range(n)]
-        if target_kind in ('binary', 'multi'):
+        if target_kind in ('binary', 'multi') or opt.get('k'):
             # make the class count what was asked for whenever the frame is long enough
             free = list(range(n))
             rng.shuffle(free)
@@ -202,20 +325,36 @@ def gen_col(rng, name, st, n, target_kind=None):
                 cells[i] = v
         if all(c is None for c in cells) and rng.random() < 0.8:
             cells[rng.randrange(n)] = pool[0]
+        has_na = any(c is None for c in cells)
+        r = {'na': rng.choice(['None', 'nan'])}
         if as_int:
             # (integer categories held in an OBJECT column are outside the stated domain: pandas refuses to merge an
             #  all-None object selection of such a column against the int64 category index - logged in the report)
-            dt = rng.choice(['Int64', 'float64', 'int64'])
-            if dt == 'int64' and any(c is None for c in cells):
-                dt = 'Int64'
+            big = any(abs(c) >= 2 ** 31 - 1 for c in cells if c is not None)
+            dt = rng.choice(['Int64', 'int64', 'category'] + ([] if big else ['float64', 'Int32', 'int32']))
+            if has_na and dt in ('int64', 'int32'):
+                dt = {'int64': 'Int64', 'int32': 'Int32'}[dt]
         else:
-            dt = rng.choice(['object', 'str'])
-        col['r'] = {'dtype': dt, 'na': rng.choice(['None', 'nan'])}
+            dt = rng.choice(['object', 'str', 'object', 'str', 'category', 'string'])
+        if dt == 'category':
+            r['cat_order'] = rng.choice(['sorted', 'reversed', 'shuffled'])
+            r['cat_seed'] = rng.randint(0, 999)
+            r['ordered'] = rng.random() < 0.3
+        r['dtype'] = dt
+        col['r'] = r
+        if opt.get('k'):
+            col['k'] = k
     elif st == 'multicategorical':
         how = rng.choice(['sep', 'sep', 'list'])
         sep = rng.choice(SEPS)
-        k = rng.randint(1, 6)
-        pool = rng.sample(TOKENS, k)
+        k = opt.get('k', rng.randint(1, 6))
+        if opt.get('k') or opt.get('long'):
+            pool = synth_tokens(rng, k, sep if how == 'sep' else None, opt.get('long'))
+        else:
+            cand = [t for t in TOKENS + TOKENS_WITH_SEP if how == 'list' or not (set(t) & set(sep))]
+            pool = rng.sample(cand, min(k, len(cand)))
+        k = len(pool)
+        big = opt.get('m')
         def cell():
             if miss():
                 return None
@@ -227,28 +366,73 @@ def gen_col(rng, name, st, n, target_kind=None):
                 toks = ['']
             return toks
         cells = [cell() for _ in range(n)]
+        if big:
+            # one cell with `m` tokens (repeats included), another with every pool token once
+            cells[rng.randrange(n)] = [rng.choice(pool) for _ in range(big)]
+            cells[rng.randrange(n)] = rng.sample(pool, len(pool))
+        elif opt.get('k'):
+            for t in pool:
+                i = rng.randrange(n)
+                cells[i] = (cells[i] or []) + [t]
         if all(not c for c in cells) and rng.random() < 0.8:
             cells[rng.randrange(n)] = [pool[0]]
-        pads = [[[rng.choice([0, 0, 1, 2]), rng.choice([0, 0, 1])] for _ in (c or [])] for c in cells]
-        col['r'] = {'how': how, 'sep': sep if how == 'sep' else None,
-                    'dtype': rng.choice(['object', 'str']) if how == 'sep' else 'object',
+        heavy = bool(opt.get('k') or big)
+        pads = None if heavy else [[[rng.choice([0, 0, 1, 2]), rng.choice([0, 0, 1])] for _ in (c or [])] for c in cells]
+        has_na = any(c is None for c in cells)
+        if how == 'sep':
+            # (`string`, the pd.NA-backed dtype: a missing cell is pd.NA, which split_by_sep rejects - outside the
+            #  stated None/NaN domain, logged; generated without missing cells only)
+            dt = rng.choice(['object', 'str'] + ([] if has_na else ['string']))
+        else:
+            dt = 'object'
+        col['r'] = {'how': how, 'sep': sep if how == 'sep' else None, 'dtype': dt,
+                    'box': rng.choice(['list', 'list', 'tuple', 'ndarray', 'set']) if how == 'list' else None,
                     'na': rng.choice(['None', 'nan']), 'pads': pads,
-                    'blank': [rng.choice([0, 0, 1, 3]) for _ in cells]}
+                    'blank': [rng.choice([0, 0, 1, 3]) for _ in cells[:64]]}
+        if opt.get('k'):
+            col['k'] = k
     elif st == 'sequence_numerical':
+        big = opt.get('m')
+        spec = rng.random() < 0.15
         def cell():
             if miss():
                 return None
             m = rng.choice([0, 1, 2, 3, 5])
-            return [('nan' if rng.random() < 0.15 else rng.choice(NUM_POOL)) for _ in range(m)]
+            return [('nan' if rng.random() < 0.15 else rng.choice(NUM_SPECIAL if spec else NUM_POOL)) for _ in range(m)]
         cells = [cell() for _ in range(n)]
+        cells = [None if c is None else [('inf' if x == math.inf else '-inf' if x == -math.inf else x) for x in c]
+                 for c in cells]
+        if big:
+            cells[rng.randrange(n)] = [('nan' if rng.random() < 0.05 else float(rng.randint(-9, 9))) for _ in range(big)]
         if all(not c for c in cells) and rng.random() < 0.7:
             cells[rng.randrange(n)] = [1.0]
-        col['r'] = {'na': rng.choice(['None', 'nan'])}
+        col['r'] = {'na': rng.choice(['None', 'nan']), 'ints': rng.random() < 0.15}
     elif st == 'timestamp':
-        kind = rng.choice(['str', 'str', 'str', 'dt64'])
-        fmt, pyfmt, res = rng.choice(TIME_FORMATS)
-        if kind == 'dt64':
-            res = 1
+        kind = rng.choice(['str', 'str', 'str', 'str', 'dt64', 'dt64', 'dt64tz', 'pyobj'])
+        fmt, pyfmt, res, has_f, has_z = rng.choice(TIME_FORMATS)
+        shared = opt.get('shared_time')
+        if shared:
+            kind = 'str'
+            fmt, pyfmt, res, has_f, has_z = shared['fmt'], shared['fmt'], 1, False, False
+        unit = rng.choice(['s', 'ms', 'us', 'ns'])
+        r = {'kind': kind, 'fmt': fmt, 'pyfmt': pyfmt, 'dtype': rng.choice(['object', 'str', 'object', 'str', 'string']),
+             'unit': unit, 'na': rng.choice(['None', 'nan']), 'frac': None, 'tz': None}
+        if kind != 'str':
+            res, r['fmt'], r['pyfmt'] = 1, None, None
+            if unit != 's' and rng.random() < 0.6:
+                r['frac'] = rng.randint(0, 6)
+            if kind == 'dt64tz':
+                r['tzname'] = rng.choice(TZ_NAMES)
+            if kind == 'pyobj':
+                r['unit'] = 'us'
+                r['frac'] = rng.choice([None, rng.randint(0, 6)])
+                r['pyobj'] = rng.choice(['datetime', 'Timestamp'])
+                r['tz'] = rng.choice([None, None, rng.choice(TZ_MINUTES)])
+        else:
+            if has_f:
+                r['frac'] = rng.randint(0, 6)
+            if has_z:
+                r['tz'] = rng.choice(TZ_MINUTES)     # one offset per column (mixed offsets make pandas raise: logged)
         # unparseable strings only under an explicit format: with format=None pandas GUESSES the format from
         # the first entry, and what it guesses from a malformed string is pandas' business, not the library's
         pbad = rng.choice([0.0, 0.0, 0.15]) if (kind == 'str' and fmt is not None) else 0.0
@@ -257,48 +441,145 @@ def gen_col(rng, name, st, n, target_kind=None):
                 return None
             if rng.random() < pbad:
                 return {'bad': rng.choice(BAD_TIMES)}
+            if shared:
+                a, b, y, h, mi, s = rng.choice(shared['raw'])
+                return epoch_of(y, b, a, h, mi, s) if shared['dmy'] else epoch_of(y, a, b, h, mi, s)
             s = gen_time(rng)
             return s - s % res
         cells = [cell() for _ in range(n)]
         if all(not isinstance(c, int) for c in cells) and rng.random() < 0.8:
-            s = gen_time(rng)
-            cells[rng.randrange(n)] = s - s % res
-        col['r'] = {'kind': kind, 'fmt': fmt, 'pyfmt': pyfmt, 'dtype': rng.choice(['object', 'str']),
-                    'unit': rng.choice(['s', 'ms', 'us', 'ns']), 'na': rng.choice(['None', 'nan'])}
+            if shared:
+                a, b, y, h, mi, s = shared['raw'][0]
+                cells[rng.randrange(n)] = epoch_of(y, b, a, h, mi, s) if shared['dmy'] else epoch_of(y, a, b, h, mi, s)
+            else:
+                s = gen_time(rng)
+                cells[rng.randrange(n)] = s - s % res
+        col['r'] = r
     elif st == 'embedding':
-        w = rng.randint(1, 5)
+        w = opt.get('w', rng.randint(1, 5))
         pm = rng.choice([0.0, 0.0, 0.25, 0.5])
-        cells = [None if rng.random() < pm else
-                 [rng.choice(NUM_POOL) if rng.random() < 0.5 else float(rng.randint(0, 9)) for _ in range(w)]
-                 for _ in range(n)]
+        spec = rng.random() < 0.15
+        def x():
+            if spec:
+                v = rng.choice(NUM_SPECIAL)
+                return 'inf' if v == math.inf else '-inf' if v == -math.inf else v
+            return rng.choice(NUM_POOL) if rng.random() < 0.5 else float(rng.randint(0, 9))
+        cells = [None if rng.random() < pm else [x() for _ in range(w)] for _ in range(n)]
         if all(c is None for c in cells):
             # an embedding column without a single vector has no width: outside the domain (still raises)
             cells[rng.randrange(n)] = [float(rng.randint(0, 9)) for _ in range(w)]
-        col['r'] = {'as': rng.choice(['list', 'ndarray']), 'w': w, 'na': rng.choice(['None', 'nan'])}
+        col['r'] = {'as': rng.choice(['list', 'ndarray', 'tuple', 'ndarray32', 'list']), 'w': w,
+                    'na': rng.choice(['None', 'nan'])}
     elif st in ('text_embedded', 'image_embedded'):
         pm = rng.choice([0.0, 0.0, 0.2])
-        cells = [None if rng.random() < pm else rng.choice(TEXTS) for _ in range(n)]
-        col['r'] = {'dtype': rng.choice(['object', 'str']), 'na': rng.choice(['None', 'nan']),
-                    'w': rng.randint(1, 4), 'salt': rng.randint(0, 50), 'batch': rng.choice([None, None, 1, 2, 5])}
+        texts = TEXTS + (synth_values(rng, 3, opt['long']) if opt.get('long') else [])
+        cells = [None if rng.random() < pm else rng.choice(texts) for _ in range(n)]
+        col['r'] = {'dtype': rng.choice(['object', 'str', 'object', 'str', 'string']), 'na': rng.choice(['None', 'nan']),
+                    'w': opt.get('w', rng.randint(1, 4)), 'salt': rng.randint(0, 50),
+                    'batch': rng.choice([None, None, 1, 2, 5] + ([17, 256] if n > 16 else []))}
     else:
         raise ValueError(st)
     col['cells'] = cells
     return col
 
 
+def gen_shared_multicat(rng, names, n, raw=None):
+    """>= 2 delimiter-joined columns with DIFFERENT separators whose cells are drawn from one pool of raw texts
+    (atoms joined by a mixture of the separators): the same text splits differently in each column"""
+    seps = rng.sample(SEPS, len(names))
+    if raw is None:
+        raw = []
+        for _ in range(rng.randint(3, 6)):
+            m = rng.randint(2, 4)
+            t = rng.choice(ATOMS)
+            for _ in range(m - 1):
+                t += rng.choice(seps) + rng.choice(ATOMS)
+            raw.append(t)
+    cols = []
+    for name, sep in zip(names, seps):
+        pm = rng.choice([0.0, 0.2])
+        cells = [None if rng.random() < pm else [t.strip() for t in rng.choice(raw).split(sep)] for _ in range(n)]
+        cols.append({'name': name, 'stype': 'multicategorical', 'cells': cells, 'shared_raw': True,
+                     'r': {'how': 'sep', 'sep': sep, 'dtype': rng.choice(['object', 'str']), 'box': None,
+                           'na': rng.choice(['None', 'nan']), 'pads': None, 'blank': [0]}})
+    return cols, raw
+
+
+def gen_shared_time(rng, names, n):
+    """two text timestamp columns, day-first and month-first, drawn from one pool of raw strings"""
+    raw = [(rng.randint(1, 12), rng.randint(1, 12), rng.randint(1700, 2200), rng.randint(0, 23), rng.randint(0, 59),
+            rng.randint(0, 59)) for _ in range(rng.randint(2, 5))]
+    cols = []
+    for name, dmy in zip(names, [True, False]):
+        sh = {'raw': raw, 'dmy': dmy, 'fmt': '%d/%m/%Y %H:%M:%S' if dmy else '%m/%d/%Y %H:%M:%S'}
+        c = gen_col(rng, name, 'timestamp', n, opt={'shared_time': sh})
+        c['shared_raw'] = True
+        cols.append(c)
+    return cols
+
+
 FEATURE_STYPES = ['numerical', 'numerical', 'categorical', 'categorical', 'multicategorical', 'multicategorical',
                   'sequence_numerical', 'timestamp', 'timestamp', 'embedding', 'text_embedded', 'image_embedded']
 
 
-def gen_frame(rng, n=None, ncols=None, target=None, focus=None):
-    """abstract frame: 1-12 rows, 1-8 feature columns (+ optional target column at a random position)"""
+def synth_names(rng, k):
+    """k distinct column names whose sorted order differs from generation order and from case-insensitive order"""
+    base = list(NAME_POOL)
+    rng.shuffle(base)
+    out = base[:min(k, len(base))]
+    prefixes = ['c', 'C', 'col_', 'Z', 'é', 'label', 'label_']
+    i = 0
+    seen = set(out)
+    while len(out) < k:
+        v = f'{prefixes[i % len(prefixes)]}{i // len(prefixes)}'
+        i += 1
+        if v not in seen:
+            seen.add(v)
+            out.append(v)
+    rng.shuffle(out)
+    return out
+
+
+def gen_cfg(rng):
+    """how the per-column configuration reaches Dataset: dict in its own order / one string / None entries left out;
+    DataFrame columns the dataset does not use"""
+    return {'sep': rng.choice(['dict', 'dict', 'auto']), 'fmt': rng.choice(['dict', 'dict', 'auto']),
+            'kwseed': rng.randint(0, 999), 'extra_cols': rng.choice([0, 0, 0, 1, 2]), 'split_col': rng.random() < 0.1}
+
+
+def gen_frame(rng, n=None, ncols=None, target=None, focus=None, level=0, opts=None, plain=False):
+    """abstract frame: 1-12 rows, 1-8 feature columns (+ optional target column at a random position).
+    `opts`: per-column scale options (first column of the focus stype); `plain`: no shared-raw / prelude / cfg extras"""
     n = n if n is not None else rng.choice([1, 1, 2, 2, 3, 4, 5, 6, 8, 10, 12])
     ncols = ncols if ncols is not None else rng.choice([1, 2, 3, 3, 4, 5, 6, 8])
-    names = rng.sample(NAME_POOL, ncols + 1)
-    cols = []
-    for i in range(ncols):
-        st = focus if (focus and (i == 0 or rng.random() < 0.5)) else rng.choice(FEATURE_STYPES)
-        cols.append(gen_col(rng, names[i], st, n))
+    names = synth_names(rng, ncols + 1) if ncols + 1 > len(NAME_POOL) else rng.sample(NAME_POOL, ncols + 1)
+    cols, fam = [], []
+    i = 0
+    if not plain and ncols >= 2 and rng.random() < 0.1:
+        if rng.random() < 0.7:
+            k = min(ncols, rng.choice([2, 2, 3]))
+            sh, raw = gen_shared_multicat(rng, names[:k], n)
+            fam.append('shared-raw:multicat-seps')
+            if rng.random() < 0.6:
+                # the same raw texts went through ANOTHER dataset (other separators) earlier in the process
+                pre, _ = gen_shared_multicat(rng, ['p', 'q'], rng.randint(2, 6), raw)
+                fam.append('history:prelude-dataset')
+                prelude = [{'n': len(pre[0]['cells']), 'cols': pre, 'target': None}]
+            else:
+                prelude = None
+        else:
+            k = 2
+            sh, prelude = gen_shared_time(rng, names[:2], n), None
+            fam.append('shared-raw:time-formats')
+        cols += sh
+        i = k
+    else:
+        prelude = None
+    for j in range(i, ncols):
+        st = focus if (focus and (j == 0 or rng.random() < 0.5)) else rng.choice(FEATURE_STYPES)
+        cols.append(gen_col(rng, names[j], st, n, opt=opts if (opts and j == 0) else None))
+    if i:
+        rng.shuffle(cols)
     tname = None
     tk = target if target is not None else rng.choice(['none', 'none', 'regression', 'binary', 'multi', 'multi',
                                                        'single', 'timestamp'])
@@ -311,13 +592,118 @@ def gen_frame(rng, n=None, ncols=None, target=None, focus=None):
         else:
             tcol = gen_col(rng, tname, 'categorical', n, target_kind=tk)
         cols.insert(rng.randint(0, len(cols)), tcol)
-    return {'n': n, 'cols': cols, 'target': tname}
+    frame = {'n': n, 'cols': cols, 'target': tname}
+    if not plain:
+        frame['cfg'] = gen_cfg(rng)
+        if not prelude and ncols <= 8 and rng.random() < 0.06:
+            prelude = [gen_sibling(rng, frame)]
+            fam.append('history:prelude-dataset-same-schema')
+        if prelude:
+            frame['prelude'] = prelude
+        if rng.random() < 0.15:
+            frame['again'] = True          # a second materialize() on the same dataset
+            fam.append('history:materialize-twice')
+        if n <= 64 and rng.random() < 0.2:
+            frame['twin'] = True           # the DataFrame is compared with an identically built twin afterwards
+            fam.append('alias:input-frame-unchanged')
+    if fam:
+        frame['fam'] = fam
+    return frame
+
+
+def gen_sibling(rng, frame, max_cols=6):
+    """another small dataset with the SAME column names and stypes as `frame` but freshly drawn cells and render
+    options (other separators / formats / category sets / embedder widths): a second dataset of the same schema in
+    one process (train / test files), whose fitted state must not leak into the first"""
+    m = rng.randint(1, 6)
+    cols = [gen_col(rng, c['name'], c['stype'], m) for c in frame['cols'][:max_cols] if c['name'] != frame['target']]
+    if not cols:
+        cols = [gen_col(rng, 'p', 'categorical', m)]
+    return {'n': m, 'cols': cols, 'target': None}
+
+
+SCALE_DIMS = ['rows', 'rows', 'cols', 'cats', 'tokens', 'celllen', 'seqlen', 'embwidth', 'multicats']
+
+
+def gen_scaled_frame(rng, level, dim=None, target=None, big=False, top=False, max_cols=4097):
+    """a frame with ONE dimension taken from the size ladder of the stress level (harness/stress.py), the others small,
+    keeping the ingredients of the small frames (missing cells, repeats, ties, padding, any dtype).
+    `big`: take the size from the rungs above the level's ladder (long-frame code paths, > 16 384 / 65 536 rows);
+    `top`: take the top rung of the level's ladder (every dimension reaches it once per run)"""
+    dim = dim or rng.choice(SCALE_DIMS)
+    def size(cap=None):
+        if big:
+            return rng.choice([x for x in stress.LADDER_BIG if cap is None or x <= cap]) + rng.choice([0, 1, 2])
+        if top:
+            return max(x for x in stress.ladder(level) if cap is None or x <= cap) + rng.choice([0, 1, 2])
+        return stress.pick_size(rng, level, cap)
+    if dim == 'rows':
+        v = size()
+        f = gen_frame(rng, n=v, ncols=rng.choice([1, 2, 3]) if v < 5000 else rng.choice([1, 2]), target=target,
+                      focus=rng.choice(['categorical', 'multicategorical', 'timestamp', None, 'numerical']))
+    elif dim == 'cols':
+        v = size(max_cols)
+        f = gen_frame(rng, n=rng.choice([1, 2, 3, 5]), ncols=v, target=target)
+    elif dim == 'cats':
+        v = size()
+        f = gen_frame(rng, n=v + rng.choice([0, 1, v // 2]), ncols=rng.choice([1, 2]), target=target, focus='categorical',
+                      opts={'k': v})
+    elif dim == 'multicats':
+        v = size()
+        f = gen_frame(rng, n=rng.choice([3, 8, max(3, v // 4)]), ncols=rng.choice([1, 2]), target=target,
+                      focus='multicategorical', opts={'k': v})
+    elif dim == 'tokens':
+        v = size()
+        f = gen_frame(rng, n=rng.choice([2, 3, 6]), ncols=rng.choice([1, 2]), target=target, focus='multicategorical',
+                      opts={'m': v, 'k': rng.choice([3, 17, max(3, v // 3)])})
+    elif dim == 'celllen':
+        v = size()
+        f = gen_frame(rng, n=rng.choice([3, 6, 10]), ncols=rng.choice([1, 2, 3]), target=target,
+                      focus=rng.choice(['categorical', 'multicategorical', 'text_embedded']), opts={'long': v})
+    elif dim == 'seqlen':
+        v = size()
+        f = gen_frame(rng, n=rng.choice([2, 4, 7]), ncols=rng.choice([1, 2]), target=target, focus='sequence_numerical',
+                      opts={'m': v})
+    elif dim == 'embwidth':
+        v = size(4097 if level < 2 else 16385)
+        f = gen_frame(rng, n=rng.choice([2, 4, 7]), ncols=rng.choice([1, 2]), target=target,
+                      focus=rng.choice(['embedding', 'text_embedded']), opts={'w': v})
+    else:
+        raise ValueError(dim)
+    f['fam'] = f.get('fam', []) + [size_label(dim, v) or f'scale:{dim}:small']
+    f['scale'] = [dim, v]
+    return f
+
+
+def frame_items(frame):
+    """rough number of scalar items of a frame (decides canonicaliser / whether the Lean model is asked)"""
+    t = 0
+    for c in frame['cols']:
+        w = 1
+        if c['stype'] in EMB_KINDS:
+            w = c['r']['w']
+        elif c['stype'] == 'timestamp':
+            w = 7
+        elif c['stype'] in ('multicategorical', 'sequence_numerical'):
+            t += sum(len(x) for x in c['cells'] if x)
+        t += w * frame['n']
+    return t
+
+
+def model_feasible(frame):
+    if frame['n'] > MODEL_ROWS or len(frame['cols']) > MODEL_COLS or frame_items(frame) > MODEL_ITEMS:
+        return False
+    for c in frame['cols']:
+        if c['stype'] in ('categorical', 'multicategorical') and c.get('k', 0) > MODEL_CATS:
+            return False
+    return True
 
 
 def gen_labels(rng, n, kind=None):
     """an index labelling of n rows and the pandas route that produces it"""
     kind = kind or rng.choice(['range', 'offset', 'perm', 'str', 'dup', 'dupall', 'concat', 'iloc', 'setindex',
-                               'negative', 'float'])
+                               'negative', 'float', 'multiindex', 'datetime', 'bool', 'nanfloat', 'bigint', 'catindex',
+                               'perm', 'spread', 'spread'])
     if kind == 'range':
         return {'kind': kind, 'how': 'default', 'values': list(range(n))}
     if kind == 'offset':
@@ -329,6 +715,13 @@ def gen_labels(rng, n, kind=None):
         v = list(range(n))
         rng.shuffle(v)
         return {'kind': kind, 'how': rng.choice(['assign', 'setindex']), 'values': v}
+    if kind == 'spread':
+        # id-like labels: distinct integers scattered over a range far wider than the frame is long, in no order
+        return {'kind': kind, 'how': rng.choice(['assign', 'setindex']), 'values': rng.sample(range(-10 ** 6, 10 ** 7), n)}
+    if kind == 'bigint':
+        v = [2 ** 40 + i for i in range(n)]
+        rng.shuffle(v)
+        return {'kind': kind, 'how': 'assign', 'values': v}
     if kind == 'str':
         v = [f'r{rng.randint(0, 99)}_{i}' for i in range(n)]
         rng.shuffle(v)
@@ -342,6 +735,17 @@ def gen_labels(rng, n, kind=None):
         return {'kind': kind, 'how': 'setindex', 'values': [rng.randint(-2, n + 2) for _ in range(n)]}
     if kind == 'float':
         return {'kind': kind, 'how': 'assign', 'values': [i + 0.5 for i in range(n)]}
+    if kind == 'nanfloat':
+        return {'kind': kind, 'how': 'assign', 'values': [None if rng.random() < 0.4 else float(rng.randint(0, n)) for _ in range(n)]}
+    if kind == 'bool':
+        return {'kind': kind, 'how': 'assign', 'values': [rng.random() < 0.5 for _ in range(n)]}
+    if kind == 'multiindex':
+        return {'kind': kind, 'how': 'assign', 'values': [[rng.randint(0, 2), rng.choice(['a', 'b', 'c'])] for _ in range(n)]}
+    if kind == 'datetime':
+        return {'kind': kind, 'how': 'assign',
+                'values': [f'20{rng.randint(10, 30)}-{rng.randint(1, 12):02d}-{rng.randint(1, 28):02d}' for _ in range(n)]}
+    if kind == 'catindex':
+        return {'kind': kind, 'how': 'assign', 'values': [rng.choice(['x', 'y', 'z']) for _ in range(n)]}
     if kind == 'concat':
         cuts = sorted(rng.sample(range(1, n), min(n - 1, rng.choice([1, 1, 2])))) if n > 1 else []
         bounds = [0] + cuts + [n]
@@ -357,9 +761,49 @@ def gen_labels(rng, n, kind=None):
     raise ValueError(kind)
 
 
+def index_of(labels):
+    """the pandas Index of a labelling"""
+    kind, v = labels.get('kind'), labels['values']
+    if kind == 'multiindex':
+        return pd.MultiIndex.from_tuples([tuple(x) for x in v])
+    if kind == 'datetime':
+        return pd.DatetimeIndex(pd.to_datetime(v))
+    if kind == 'catindex':
+        return pd.CategoricalIndex(v)
+    if kind == 'nanfloat':
+        return pd.Index([np.nan if x is None else x for x in v], dtype='float64')
+    if kind == 'dupall' or kind == 'str':
+        return pd.Index(v, dtype=object) if any(isinstance(x, str) for x in v) else pd.Index(v)
+    return pd.Index(v)
+
+
 # ------------------------------------------------------------------------------------------ rendering
 def _na(r):
     return None if r.get('na', 'None') == 'None' else np.nan
+
+
+def time_text(r, c):
+    """the text a timestamp cell (wall-clock epoch second) is written as: strftime incl. %f and %z"""
+    t = EPOCH + datetime.timedelta(seconds=c, microseconds=frac_us(r, c))
+    if r.get('tz') is not None:
+        t = t.replace(tzinfo=datetime.timezone(datetime.timedelta(minutes=r['tz'])))
+    return t.strftime(r['pyfmt'])
+
+
+def _dt64_values(r, cells):
+    """int64 payload of a datetime64[unit] column: wall-clock second * unit + the sub-second part of the unit"""
+    unit = r['unit']
+    per = UNIT_PER_S[unit]
+    out = np.empty(len(cells), dtype='int64')
+    for i, c in enumerate(cells):
+        if not isinstance(c, int):
+            out[i] = np.iinfo('int64').min
+            continue
+        us = frac_us(r, c)
+        sub = 0 if unit == 's' else us // 1000 if unit == 'ms' else us if unit == 'us' else \
+            us * 1000 + (999 if us == 999999 else 0)
+        out[i] = c * per + sub
+    return out.view(f'datetime64[{unit}]')
 
 
 def render_cells(col, cells=None):
@@ -368,37 +812,71 @@ def render_cells(col, cells=None):
     cells = col['cells'] if cells is None else cells
     if st == 'numerical':
         dt = r['dtype']
-        if dt in ('Int64', 'int64'):
+        if dt[0] in 'IU' or dt.startswith('int') or dt.startswith('uint'):
             return [pd.NA if c is None else int(fval(c)) for c in cells], dt
+        if dt[0] == 'F':
+            return [pd.NA if c is None else fval(c) for c in cells], dt
         return [np.nan if c is None else fval(c) for c in cells], dt
     if st == 'categorical':
         dt = r['dtype']
-        if dt in ('Int64', 'int64'):
+        if dt == 'category':
+            # the dtype's categories are those of the whole column (pieces of one frame share one CategoricalDtype)
+            vals = sorted({c for c in cells if c is not None} | {c for c in col['cells'] if c is not None})
+            if r.get('cat_order') == 'reversed':
+                vals = vals[::-1]
+            elif r.get('cat_order') == 'shuffled':
+                import random
+                random.Random(r.get('cat_seed', 0)).shuffle(vals)
+            ints = bool(vals) and all(isinstance(v, int) for v in vals)
+            # integer categories travel as Int64 categories (a plain int64 Categorical with a missing cell makes the
+            # merge inside CategoricalTensorMapper raise: logged as observed outside the generated domain)
+            cats = pd.array(vals, dtype='Int64') if ints else pd.Index(vals, dtype=object)
+            raw = pd.array([pd.NA if c is None else c for c in cells], dtype='Int64') if ints else \
+                [None if c is None else c for c in cells]
+            return pd.Categorical(raw, categories=cats, ordered=bool(r.get('ordered'))), None
+        if dt in ('Int64', 'int64', 'Int32', 'int32'):
             return [pd.NA if c is None else c for c in cells], dt
         if dt == 'float64':
             return [np.nan if c is None else float(c) for c in cells], dt
         return [_na(r) if c is None else c for c in cells], dt
     if st == 'multicategorical':
         out = []
+        box = {'tuple': tuple, 'set': set, 'ndarray': lambda c: np.array(list(c), dtype=object)}.get(r.get('box'), list)
+        pads_all, blanks = r.get('pads'), r.get('blank') or [0]
         for i, c in enumerate(cells):
             if c is None:
                 out.append(_na(r))
             elif r['how'] == 'list':
-                out.append(list(c))
+                out.append(box(c))
             elif not c:
-                out.append(' ' * r['blank'][i % len(r['blank'])])
+                out.append(' ' * blanks[i % len(blanks)])
             else:
-                pads = r['pads'][i % len(r['pads'])]
-                pads = pads if len(pads) == len(c) else [[0, 0]] * len(c)
-                out.append(r['sep'].join(' ' * p[0] + t + ' ' * p[1] for t, p in zip(c, pads)))
+                pads = pads_all[i % len(pads_all)] if pads_all else None
+                if pads is None or len(pads) != len(c):
+                    out.append(r['sep'].join(c))
+                else:
+                    out.append(r['sep'].join(' ' * p[0] + t + ' ' * p[1] for t, p in zip(c, pads)))
         return out, r['dtype']
     if st == 'sequence_numerical':
-        return [_na(r) if c is None else [fval(x) for x in c] for c in cells], 'object'
+        conv = (lambda x: int(x) if float(x).is_integer() and abs(x) < 2 ** 31 and math.copysign(1, x) * (x == 0) >= 0 else float(x)) \
+            if r.get('ints') else float
+        return [_na(r) if c is None else [(fval(x) if isinstance(x, str) else conv(x)) for x in c] for c in cells], 'object'
     if st == 'timestamp':
-        if r['kind'] == 'dt64':
-            arr = np.array([np.datetime64('NaT') if not isinstance(c, int) else np.datetime64(c, 's')
-                            for c in cells], dtype=f"datetime64[{r['unit']}]")
-            return arr, None
+        kind = r['kind']
+        if kind == 'dt64':
+            return _dt64_values(r, cells), None
+        if kind == 'dt64tz':
+            return pd.Series(_dt64_values(r, cells)).dt.tz_localize(r['tzname']).array, None
+        if kind == 'pyobj':
+            tz = None if r.get('tz') is None else datetime.timezone(datetime.timedelta(minutes=r['tz']))
+            out = []
+            for c in cells:
+                if not isinstance(c, int):
+                    out.append(_na(r) if r.get('pyobj') == 'datetime' else pd.NaT)
+                    continue
+                t = (EPOCH + datetime.timedelta(seconds=c, microseconds=frac_us(r, c))).replace(tzinfo=tz)
+                out.append(t if r.get('pyobj') == 'datetime' else pd.Timestamp(t))
+            return out, 'object'
         out = []
         for c in cells:
             if c is None:
@@ -406,12 +884,13 @@ def render_cells(col, cells=None):
             elif isinstance(c, dict):
                 out.append(c['bad'])
             else:
-                out.append((EPOCH + datetime.timedelta(seconds=c)).strftime(r['pyfmt']))
+                out.append(time_text(r, c))
         return out, r['dtype']
     if st == 'embedding':
-        if r['as'] == 'ndarray':
-            return [_na(r) if c is None else np.array(c, dtype='float64') for c in cells], 'object'
-        return [_na(r) if c is None else list(c) for c in cells], 'object'
+        how = r['as']
+        mk = {'ndarray': lambda c: np.array(c, dtype='float64'), 'ndarray32': lambda c: np.array(c, dtype='float32'),
+              'tuple': tuple}.get(how, list)
+        return [_na(r) if c is None else mk([fval(x) for x in c]) for c in cells], 'object'
     if st in ('text_embedded', 'image_embedded'):
         return [_na(r) if c is None else c for c in cells], r['dtype']
     raise ValueError(st)
@@ -423,6 +902,8 @@ def text_input(col, c):
         return c
     if col['r']['dtype'] == 'str':
         return 'nan'
+    if col['r']['dtype'] == 'string':
+        return '<NA>'
     return 'None' if col['r'].get('na', 'None') == 'None' else 'nan'
 
 
@@ -437,12 +918,23 @@ def _series(vals, dt, index=None):
     return pd.Series(vals, dtype=dt, index=index)
 
 
+EXTRA_COLS = ['zz_unused', 'Unused 2']
+
+
 def _plain_df(frame, rows, order):
     data = {}
     for j in order:
         col = frame['cols'][j]
         vals, dt = render_cells(col, [col['cells'][i] for i in rows])
         data[col['name']] = _series(vals, dt)
+    cfg = frame.get('cfg') or {}
+    used = {c['name'] for c in frame['cols']}
+    for k in range(cfg.get('extra_cols', 0)):
+        # columns the dataset is not told about (not in col_to_stype)
+        if EXTRA_COLS[k] not in used:
+            data[EXTRA_COLS[k]] = pd.Series([f'junk{i % 3}' for i in range(len(rows))], dtype=object)
+    if cfg.get('split_col') and '__split' not in used:
+        data['__split'] = pd.Series([i % 3 for i in range(len(rows))], dtype='int64')
     return pd.DataFrame(data)
 
 
@@ -457,7 +949,7 @@ def render(frame, labels=None, dfperm=None, rows=None):
         return _plain_df(frame, rows, order)
     if how == 'assign':
         df = _plain_df(frame, rows, order)
-        df.index = pd.Index(labels['values'])
+        df.index = index_of(labels)
         return df
     if how == 'setindex':
         df = _plain_df(frame, rows, order)
@@ -482,6 +974,7 @@ def render(frame, labels=None, dfperm=None, rows=None):
 
 def dataset_kwargs(frame, dictperm=None, with_target=True):
     """(col_to_stype in the requested dict order, keyword arguments, stub callables by column)"""
+    import random
     import torch_frame
     from torch_frame.config import ImageEmbedderConfig, TextEmbedderConfig
     order = list(range(len(frame['cols']))) if dictperm is None else dictperm
@@ -500,7 +993,27 @@ def dataset_kwargs(frame, dictperm=None, with_target=True):
         elif st == 'image_embedded':
             stubs[name] = Stub(r['w'], r['salt'])
             icfg[name] = ImageEmbedderConfig(image_embedder=stubs[name], batch_size=r['batch'])
-    kw = {'target_col': frame['target'] if with_target else None, 'col_to_sep': sep, 'col_to_time_format': fmt}
+    cfg = frame.get('cfg') or {}
+    rnd = random.Random(cfg.get('kwseed', 0))
+
+    def shape(d, mode):
+        """the per-column dict in its own (shuffled) key order; 'auto': one value for all columns when they agree,
+        else the dict without its None entries (the library fills them in)"""
+        if not d:
+            return d
+        keys = list(d)
+        rnd.shuffle(keys)
+        d = {k: d[k] for k in keys}
+        if mode == 'auto':
+            vals = set(d.values())
+            if len(vals) == 1:
+                return next(iter(vals))
+            return {k: v for k, v in d.items() if v is not None}
+        return d
+    kw = {'target_col': frame['target'] if with_target else None, 'col_to_sep': shape(sep, cfg.get('sep', 'dict')),
+          'col_to_time_format': shape(fmt, cfg.get('fmt', 'dict'))}
+    if cfg.get('split_col') and '__split' not in c2s:
+        kw['split_col'] = '__split'
     if tcfg:
         kw['col_to_text_embedder_cfg'] = tcfg
     if icfg:
@@ -514,6 +1027,48 @@ def make_dataset(frame, labels=None, dfperm=None, dictperm=None):
     df = render(frame, labels, dfperm)
     c2s, kw, stubs = dataset_kwargs(frame, dictperm)
     return Dataset(df, c2s, **kw), stubs
+
+
+def run_prelude(frame):
+    """materialize the frame's prelude datasets (other configuration, shared raw values) in this process first"""
+    for p in frame.get('prelude') or []:
+        ds, _ = make_dataset(p)
+        ds.materialize()
+
+
+def cell_repr(v):
+    """a raw DataFrame cell as a comparable value (twin comparison: the input frame must not be modified)"""
+    if isinstance(v, np.ndarray):
+        return ['nd', str(v.dtype), [cell_repr(x) for x in v.tolist()]]
+    if isinstance(v, (list, tuple)):
+        return [type(v).__name__, [cell_repr(x) for x in v]]
+    if isinstance(v, (set, frozenset)):
+        return ['set', sorted(map(repr, v))]
+    if v is None:
+        return 'None'
+    if v is pd.NA:
+        return '<NA>'
+    if v is pd.NaT:
+        return 'NaT'
+    if isinstance(v, float) and math.isnan(v):
+        return 'nan'
+    return repr(v)
+
+
+def frames_identical(a, b):
+    """None when two DataFrames agree in columns, dtypes, index and every cell, else a description"""
+    if list(a.columns) != list(b.columns):
+        return f'columns {list(a.columns)} vs {list(b.columns)}'
+    if [str(x) for x in a.dtypes] != [str(x) for x in b.dtypes]:
+        return f'dtypes {[str(x) for x in a.dtypes]} vs {[str(x) for x in b.dtypes]}'
+    if [cell_repr(x) for x in a.index.tolist()] != [cell_repr(x) for x in b.index.tolist()]:
+        return 'index labels differ'
+    for j, c in enumerate(a.columns):
+        x, y = a.iloc[:, j].tolist(), b.iloc[:, j].tolist()
+        for i, (u, v) in enumerate(zip(x, y)):
+            if cell_repr(u) != cell_repr(v):
+                return f'column {c!r} row {i}: {cell_repr(u)} vs {cell_repr(v)}'
+    return None
 
 
 # ------------------------------------------------------------------------------------------ canonicalisers
@@ -533,10 +1088,47 @@ def _cells_of_feat(feat, st, i, j):
     return sorted(out) if st == 'multicategorical' else out
 
 
+def _fbits_rows(t):
+    """2-D float tensor -> rows of canonical float cells (bit patterns of the double, NaN -> None)"""
+    a = t.detach().cpu().to(torch.float64).numpy()
+    bits = a.view('uint64').tolist()
+    nan = np.isnan(a).tolist()
+    return [[None if m else [b] for b, m in zip(rb, rm)] for rb, rm in zip(bits, nan)]
+
+
+def _column_cells_fast(f, st):
+    """all cells of ONE column (dense [n] / [n, k] tensor, or a one-column nested / embedding tensor)"""
+    if isinstance(f, torch.Tensor):
+        f2 = f.reshape(f.shape[0], -1)
+        if f.is_floating_point():
+            return _fbits_rows(f2)
+        return f2.tolist()
+    if hasattr(f, 'offset') and f.values.dim() == 2:           # MultiEmbeddingTensor, one column
+        return _fbits_rows(f.values)
+    off = f.offset.tolist()
+    if f.values.is_floating_point():
+        flat = _fbits_rows(f.values.reshape(1, -1))[0]
+        return [flat[a:b] for a, b in zip(off, off[1:])]
+    flat = f.values.tolist()
+    if st == 'multicategorical':
+        return [sorted(flat[a:b]) for a, b in zip(off, off[1:])]
+    return [flat[a:b] for a, b in zip(off, off[1:])]
+
+
+def _spot_check(feat, st, j, cells, n):
+    """the vectorised reading must agree with element indexing feat[i, j] on a spread of rows"""
+    for i in sorted({0, n - 1, n // 2, n // 3, (2 * n) // 3, min(n - 1, 256), min(n - 1, 65536)}):
+        if _cells_of_feat(feat, st, i, j) != cells[i]:
+            return f'vectorised read of row {i} differs from feat[{i}, {j}]'
+    return None
+
+
 def canon_y(y):
     if y is None:
         return None
     if isinstance(y, torch.Tensor):
+        if y.shape[0] > 64:
+            return _column_cells_fast(y, 'y')
         out = []
         for i in range(y.shape[0]):
             v = y[i]
@@ -548,16 +1140,32 @@ def canon_y(y):
 
 def canon_tf(tf):
     """everything observable of a TensorFrame: names, every cell through feat_dict (`grid`) and through
-    get_col_feat (`cells`), y, number of rows - in the coding of Drivers/C01.lean `jTF`"""
+    get_col_feat (`cells`), y, number of rows - in the coding of Drivers/C01.lean `jTF`.  Small frames are read
+    cell by cell through feat[i, j]; large ones column by column (feat[:, j]) with spot checks through feat[i, j]"""
     n = int(tf.num_rows)
     names = {st.value: list(cols) for st, cols in tf.col_names_dict.items()}
+    ncols = sum(len(c) for c in tf.col_names_dict.values())
+    fast = n * max(1, ncols) > FAST_CELLS
     grid, cells = {}, {}
     for st, feat in tf.feat_dict.items():
         C = len(tf.col_names_dict[st])
         if isinstance(feat, dict):
             grid[st.value] = 'dict'
             continue
-        grid[st.value] = [[_cells_of_feat(feat, st.value, i, j) for j in range(C)] for i in range(n)]
+        if not fast:
+            grid[st.value] = [[_cells_of_feat(feat, st.value, i, j) for j in range(C)] for i in range(n)]
+            continue
+        try:
+            per_col = []
+            for j in range(C):
+                col = _column_cells_fast(feat[:, j], st.value)
+                bad = _spot_check(feat, st.value, j, col, n) if n else None
+                if bad:
+                    raise ValueError(bad)
+                per_col.append(col)
+            grid[st.value] = [list(row) for row in zip(*per_col)] if per_col else [[] for _ in range(n)]
+        except Exception as e:   # noqa
+            grid[st.value] = f'unreadable: {type(e).__name__}: {str(e)[:120]}'
     for st, cols in tf.col_names_dict.items():
         for name in cols:
             try:
@@ -566,7 +1174,12 @@ def canon_tf(tf):
                     cells[name] = 'dict'
                     continue
                 rows = int(f.shape[0]) if isinstance(f, torch.Tensor) else int(f.num_rows)
-                cells[name] = [_cells_of_feat(f, st.value, i, 0) for i in range(rows)]
+                if fast:
+                    cells[name] = _column_cells_fast(f, st.value)
+                    if len(cells[name]) != rows:
+                        cells[name] = f'{len(cells[name])} cells for {rows} rows'
+                else:
+                    cells[name] = [_cells_of_feat(f, st.value, i, 0) for i in range(rows)]
             except Exception as e:   # noqa
                 cells[name] = f'raises {type(e).__name__}'
     return {'names': names, 'numRows': n, 'cells': cells, 'grid': grid, 'y': canon_y(tf.y)}
@@ -622,18 +1235,19 @@ def model_cell(col, c):
         return text_input(col, c)
     if c is None:
         return None
+    # (the model moves float payloads as bit patterns; the float32 cast of the mappers is applied here, by struct)
     if st == 'numerical':
-        return cval(fval(c))
+        return cval(f32(fval(c)))
     if st == 'categorical':
         return c
     if st == 'multicategorical':
         return list(c)
     if st == 'sequence_numerical':
-        return [cval(fval(x)) for x in c]
+        return [cval(f32(fval(x))) for x in c]
     if st == 'timestamp':
         return 'bad' if isinstance(c, dict) else int(c)
     if st == 'embedding':
-        return [cval(fval(x)) for x in c]
+        return [cval(f32(fval(x))) for x in c]
     raise ValueError(st)
 
 
@@ -678,26 +1292,51 @@ def sort_multicat(view, frame_or_stypes):
 
 
 # ------------------------------------------------------------------------------------------ plain-Python oracle
-def expected_cell(col, c, cats):
-    """the canonical encoding of one abstract cell, straight from the property's text"""
+def cat_lookup(cats):
+    """category -> index of its first listing"""
+    idx = {}
+    for i, k in enumerate(cats):
+        idx.setdefault(k, i)
+    return idx
+
+
+def expected_cell(col, c, cats, idx=None):
+    """the canonical encoding of one abstract cell, straight from the property's text (float payloads as the
+    float32 the library's default dtype holds)"""
     st = col['stype']
     if st == 'numerical':
-        return [None] if c is None else [cval(fval(c))]
+        return [None] if c is None else [cval(f32(fval(c)))]
     if st == 'categorical':
-        return [cats.index(c)] if (c is not None and c in cats) else [-1]
+        idx = cat_lookup(cats) if idx is None else idx
+        return [idx[c]] if (c is not None and c in idx) else [-1]
     if st == 'multicategorical':
         if c is None:
             return [-1]
-        return sorted({cats.index(t) for t in set(c) if t in cats})
+        idx = cat_lookup(cats) if idx is None else idx
+        return sorted({idx[t] for t in set(c) if t in idx})
     if st == 'sequence_numerical':
-        return [] if c is None else [cval(fval(x)) for x in c]
+        return [] if c is None else [cval(f32(fval(x))) for x in c]
     if st == 'timestamp':
         return components_of(c) if isinstance(c, int) else [-1] * 7
     if st == 'embedding':
-        return [None] * col['r']['w'] if c is None else [cval(fval(x)) for x in c]
+        return [None] * col['r']['w'] if c is None else [cval(f32(fval(x))) for x in c]
     if st in ('text_embedded', 'image_embedded'):
         return [cval(x) for x in stub_vec(col['r']['w'], col['r']['salt'], text_input(col, c))]
     raise ValueError(st)
+
+
+def expected_column(col, cats):
+    idx = cat_lookup(cats) if col['stype'] in ('categorical', 'multicategorical') else None
+    if col['stype'] in ('text_embedded', 'image_embedded'):
+        memo = {}
+        out = []
+        for c in col['cells']:
+            k = text_input(col, c)
+            if k not in memo:
+                memo[k] = expected_cell(col, c, cats)
+            out.append(memo[k])
+        return out
+    return [expected_cell(col, c, cats, idx) for c in col['cells']]
 
 
 def observed_values(col):
@@ -752,3 +1391,55 @@ def expected_task(frame, ncls):
             return 'raises'
         return 'binary_classification' if ncls == 2 else 'multiclass_classification'
     return 'raises'
+
+
+# ------------------------------------------------------------------------------------------ outside the generated domain
+def probe_outside_domain():
+    """inputs the hardening families touched but that are NOT generated, with what the live code does on them (logged
+    in the evidence as observed_outside_generated_domain; never part of a verdict)"""
+    import torch_frame
+    from torch_frame.data import Dataset
+    from torch_frame.data.stats import StatType
+    quiet()
+    out = []
+
+    def run(what, why, df, c2s, show=None, **kw):
+        try:
+            ds = Dataset(df, c2s, **kw).materialize()
+            obs = show(ds) if show else 'materializes'
+        except Exception as e:   # noqa
+            obs = f'raises {type(e).__name__}: {str(e)[:140]}'
+        out.append({'input': what, 'observed': str(obs)[:300], 'why_not_generated': why})
+    ts, cat, num = torch_frame.timestamp, torch_frame.categorical, torch_frame.numerical
+    f = pd.Series([1.0, 2.0, 3.0])
+    run("timestamp text column ['2001-12-31 23:00:00 +0530', '1999-12-31 23:59:59 -0800', None] with time format "
+        "'%Y-%m-%d %H:%M:%S %z' (two DIFFERENT UTC offsets in one column)",
+        'pandas.to_datetime refuses mixed offsets without utc=True even under errors="coerce"; one offset per column is generated',
+        pd.DataFrame({'t': _series(['2001-12-31 23:00:00 +0530', '1999-12-31 23:59:59 -0800', None], 'object')}), {'t': ts},
+        col_to_time_format='%Y-%m-%d %H:%M:%S %z')
+    run("timestamp text column ['2001-12-31 23:00:00', '1999-12-31 23:59:59.5', None] with time format None (auto)",
+        'pandas guesses ONE format from the first entry, the entry with a fraction becomes NaT: pandas\' business; under format=None '
+        'every cell of a column is written the same way',
+        pd.DataFrame({'t': _series(['2001-12-31 23:00:00', '1999-12-31 23:59:59.5', None], 'object')}), {'t': ts},
+        show=lambda ds: ds.tensor_frame.feat_dict[ts][:, 0].tolist())
+    run("categorical column pd.Categorical(['b','a',None], categories=['c','zz','b','a']) (declared but unused categories), as target",
+        'value_counts of a CategoricalDtype column lists the unused categories with count 0, num_classes counts them: whether a '
+        'declared-but-absent class belongs to "the target column" is not settled by the text; every generated CategoricalDtype '
+        'column declares exactly its observed values',
+        pd.DataFrame({'c': pd.Categorical(['b', 'a', None], categories=['c', 'zz', 'b', 'a']), 'f': f}), {'c': cat, 'f': num},
+        show=lambda ds: (ds.col_stats['c'][StatType.COUNT], 'num_classes', ds.num_classes), target_col='c')
+    run("categorical column pd.Categorical([3, 1, None, 3, 7]) (int64 categories, one missing cell)",
+        'the merge inside CategoricalTensorMapper casts the categorical key to int64 and cannot hold the missing cell (same class as '
+        'integer categories in an object column); integer categories of a CategoricalDtype are generated as Int64 categories',
+        pd.DataFrame({'c': pd.Categorical([3, 1, None, 3, 7])}), {'c': cat})
+    run("multicategorical column pd.Series(['b,a', None, 'c'], dtype='string') (pd.NA-backed string dtype, one missing cell), sep=','",
+        'the missing cell is pd.NA, which split_by_sep rejects; the property lists None/NaN/NaT as missing markers and object / str as '
+        'the string representations; `string` columns are generated without missing cells (multicategorical) and with them elsewhere',
+        pd.DataFrame({'m': pd.Series(['b,a', None, 'c'], dtype='string')}), {'m': torch_frame.multicategorical}, col_to_sep=',')
+    run("numerical column pd.Series([True, False, True]) (bool dtype)",
+        'np.quantile cannot subtract booleans; a bool column is not a numerical column in the sense of the property',
+        pd.DataFrame({'x': pd.Series([True, False, True])}), {'x': num})
+    run("sequence_numerical column whose cells are tuples / ndarrays: [(1.0, 2.0), None, (3.0,)]",
+        'NumericalSequenceTensorMapper documents lists only and raises ValueError otherwise (a guard, not a wrong encoding)',
+        pd.DataFrame({'s': _series([(1.0, 2.0), None, (3.0,)], 'object')}), {'s': torch_frame.sequence_numerical})
+    return out
